@@ -128,7 +128,7 @@ static inline void add_junk(TV& st, sim::Rng& r) {
     for (int k = 0; k < n; k++) {
         int id = 100 + (int)r.below(30000);
         TV v;
-        switch (r.below(11)) {
+        switch (r.below(13)) {
             case 0: v = TV::I32((int32_t)r.next()); break;
             case 1: v = TV::I64((int64_t)r.next()); break;
             case 2: v = TV::Bin(std::string(r.below(40), 'j')); break;
@@ -140,6 +140,9 @@ static inline void add_junk(TV& st, sim::Rng& r) {
             // containers with more elements than a reader's first header window has bytes left
             case 8: { v = TV::List(TT_BYTE); uint32_t n = 200 + r.below(400); for (uint32_t i = 0; i < n; i++) v.l.push_back(TV::I8((int)(i & 63))); break; }
             case 9: { v = TV::List(TT_I32); uint32_t n = 40 + r.below(260); for (uint32_t i = 0; i < n; i++) v.l.push_back(TV::I32((int32_t)i * 3)); break; }
+            // bool elements of a container are one byte each (a bool FIELD has its value in the field header)
+            case 10: { v = TV::List(TT_TRUE); uint32_t n = 1 + r.below(20); for (uint32_t i = 0; i < n; i++) v.l.push_back(TV::Bool(r.below(2))); break; }
+            case 11: { v.t = TT_MAP; v.kt = TT_I32; v.vt = TT_TRUE; uint32_t n = 1 + r.below(5); for (uint32_t i = 0; i < n; i++) v.m.push_back({TV::I32(i), TV::Bool(r.below(2))}); break; }
             default: { v = TV::List(TT_STRUCT); TV e = TV::Struct(); e.add(1, TV::Bool(true)); v.l.push_back(e); v.l.push_back(e); break; }
         }
         st.f.push_back({id, v});
